@@ -203,7 +203,9 @@ class Peek(Terminal):
         gen.writeln("else:")
         with gen.block():
             gen.writeln(f"{matched_var} = False")
-            gen.writeln(f"state.fail({peeked})")
+            gen.writeln(f"if {peeked} is not None:")
+            with gen.block():
+                gen.writeln(f"state.fail({peeked})")
 
         gen.writeln("# </Peek>")
 
@@ -309,7 +311,9 @@ class Pop(Terminal):
         gen.writeln("else:")
         with gen.block():
             gen.writeln(f"{matched_var} = False")
-            gen.writeln(f"state.fail({peeked})")
+            gen.writeln(f"if {peeked} is not None:")
+            with gen.block():
+                gen.writeln(f"state.fail({peeked})")
 
         gen.writeln("# </Pop>")
 
